@@ -517,6 +517,9 @@ func runHistory(payload string) string {
 					eb.flds[i].name = e.flds[idx[(k+1)%len(idx)]].name
 				}
 			}
+			if e.kind == "tr" && e.trk == 6 {
+				eb.trk = 10 // the same Go key type, another string form
+			}
 			adB.entries = append(adB.entries, &eb)
 		}
 		if atlB, err := adB.build(); err == nil {
